@@ -1,7 +1,7 @@
 #!/venv/bin/python
 """Reach measure for engine E2: which lines of giscanner/ do the generated scan jobs execute?
 Runs N jobs' baselines in-process under coverage.py (not a check; used to steer the generator).
-    tools/e2_coverage.py [N]"""
+    tools/e2_coverage.py [N] [missing=<module>[,<module>...]]   (e.g. missing=maintransformer lists its unexecuted lines)"""
 import io, json, os, shutil, sys, tempfile
 sys.path.insert(0, os.path.dirname(os.path.dirname(os.path.abspath(__file__))))
 import coverage
@@ -10,7 +10,8 @@ core.repo_import_path()
 cov = coverage.Coverage(include=[os.path.join(core.REPO, 'giscanner', '*.py')], data_file=None)
 cov.start()
 from sim import scansim, scanjobs, scanchild
-n = int(sys.argv[1]) if len(sys.argv) > 1 else 30
+n = int(sys.argv[1]) if len(sys.argv) > 1 and sys.argv[1].isdigit() else 30
+want_missing = [m for a in sys.argv[1:] if a.startswith('missing=') for m in a[8:].split(',')]
 done = 0
 for i in range(n):
     seed, job, variants = scansim.make_job(0, i, False)
@@ -53,3 +54,14 @@ for f in ('girwriter.py', 'maintransformer.py', 'transformer.py', 'gdumpparser.p
         print(f, 'unexecuted lines with sorted()/set():')
         for ln, t in hits:
             print('   %5d  %s' % (ln, t[:110]))
+for m in want_missing:
+    path = os.path.join(core.REPO, 'giscanner', m + '.py')
+    src = open(path).read().splitlines()
+    print('=====', m, 'unexecuted lines')
+    for ln in sorted(comb.analysis2(path)[3]):
+        print('%5d %s' % (ln, src[ln - 1][:120]))
+for i in range(n):
+    try:
+        os.unlink('/tmp/e2cov.%d' % i)
+    except OSError:
+        pass
